@@ -264,7 +264,9 @@ impl Driver {
             choices.push((w100(f.restart) * 2, 8));
         }
         if f.reconfig > 0.0 {
-            choices.push((w100(f.reconfig), 9));
+            // the first re-configuration comes early (its effect shows two epochs later)
+            let boost = if w.counters.contains_key("fault_restart_with_other_protocol_parameters") { 1 } else { 10 };
+            choices.push((w100(f.reconfig) * boost, 9));
         }
         let weights: Vec<u32> = choices.iter().map(|c| c.0.max(1)).collect();
         match choices[rng.weighted(&weights)].1 {
@@ -394,7 +396,8 @@ impl Driver {
             choices.push((w100(f.chain_down), 14));
         }
         if f.reconfig > 0.0 {
-            choices.push((w100(f.reconfig), 15));
+            let boost = if w.counters.contains_key("fault_restart_with_other_protocol_parameters") { 1 } else { 10 };
+            choices.push((w100(f.reconfig) * boost, 15));
         }
         let weights: Vec<u32> = choices.iter().map(|c| c.0.max(1)).collect();
         let action = choices[rng.weighted(&weights)].1;
